@@ -70,6 +70,7 @@ static void Handle(const json& c, vh::Report& r) {
   for (const auto& op : c["hist"]) {
     ++step;
     const std::string o = op["op"]; const EntityUID u = op["u"].get<EntityUID>();
+    r.Count("call." + o);
     if (u != 0) pool.insert(u);
     const json before = (On("C09")) ? Project(*form) : json();
     const bool wasTracked = u != 0 && form->Mods().IsTracking(u);
